@@ -26,7 +26,8 @@ EXPLANATION = (
     'the minimum-distance disjunct. Not decided: border-point geometry, cluster layout distances, point processes. '
     'Dropped from DESIGN: "Rectangle corners follow pos" - after the containment fix the test agrees with the '
     'vertices for every pos, so demanding it would exceed what C19 states.'
-    ' General rules also applied here (see DESIGN 10.5): validate-before-commit (no `raise` reachable after the object was already changed in a public mutator); falsy-zero (Optional numeric parameters tested with `is None`, never by truthiness). C19.f also covers plain float parameters; C19.i: positions are combined affinely (no point + point).')
+    ' General rules also applied here (see DESIGN 10.5): validate-before-commit (no `raise` reachable after the object was already changed in a public mutator); falsy-zero (Optional numeric parameters tested with `is None`, never by truthiness). C19.f also covers plain float parameters; C19.i: positions are combined affinely (no point + point).'
+    ' C19.n: a signed coordinate offset (a local difference) that is added as a displacement is never also used through abs() as a factor of the same result (contradictory sign beliefs; scanner over every function of shapes.py / cell.py).')
 
 PLACEMENT = {'_pos', '_rotation', '_radius'}
 EXEMPT = {('Circle', '_rotation'): 'a disc is invariant under rotation about its centre'}
@@ -184,6 +185,8 @@ def check(ctx: Ctx) -> None:
     check_no_stale_derived(ctx, 'C19.l', [SH, CE], floor=15)
     from ..idioms import check_shared_memos
     check_shared_memos(ctx, 'C19.m', [SH, CE], floor=10)
+    from ..idioms import check_signed_offsets
+    check_signed_offsets(ctx, 'C19.n', [SH, CE], floor=40)
     _check_snapshots(ctx)
     _check_back_rotation(ctx)
     _check_add_user(ctx)
@@ -478,6 +481,12 @@ class Box:
 
 
 MUTANTS = [
+    Mutant('border-point-vertical-edge-drops-the-sign', SH, 'Shape.get_border_point',
+           [('replace', 'side = np.tan(angle_rad) * adjacent_side', 'side = np.tan(angle_rad) * np.abs(adjacent_side)')],
+           r'C19\.n:Shape\.get_border_point:abs-offset:adjacent_side'),
+    Mutant('benign-border-point-abs-only-in-a-test', SH, 'Shape.get_border_point',
+           [('replace', 'side = np.tan(angle_rad) * adjacent_side', 'side = np.tan(angle_rad) * adjacent_side if np.abs(adjacent_side) >= 0 else 0.0')],
+           None, benign=True),
     Mutant('cluster-drops-the-minimum-distance-option', CE, 'Cluster.add_random_users',
            [('replace', 'add_random_user(user_color, min_dist_ratio)', 'add_random_user(user_color)')], r'C19\.k:Cluster\.add_random_users:dropped:min_dist_ratio'),
     Mutant('sector-radius-read-before-the-cell-radius-changes', CE, 'Cell3Sec.radius@setter',
